@@ -141,7 +141,12 @@ impl<'tcx> Exporter<'tcx> {
                 }
                 let n = names.join(",");
                 if n.contains("AsRef") {
-                    u8slice.into()
+                    if names.iter().any(|x| x == "core::marker::Sized" || x == "std::marker::Sized" || x == "Sized") {
+                        // by-value parameter: must be Sized -> &[u8]
+                        Ty::new_imm_ref(tcx, tcx.lifetimes.re_erased, u8slice).into()
+                    } else {
+                        u8slice.into()
+                    }
                 } else if n.contains("HeuristicFrequencyRank") {
                     match default_rank {
                         Some(t) => t.into(),
@@ -561,7 +566,41 @@ impl<'tcx> Exporter<'tcx> {
             j.put("ck", J::s("fn"));
             return j;
         }
-        match c.const_.eval(tcx, self.env, c.span) {
+        let evaluated = c.const_.eval(tcx, self.env, c.span);
+        // enum / struct / tuple constants (incl. niche-encoded `None`): destructure into variant + fields
+        if let (Ok(cv), TyKind::Adt(..) | TyKind::Tuple(..)) = (&evaluated, ty.kind()) {
+            let is_simd = matches!(ty.kind(), TyKind::Adt(a, _) if a.repr().simd());
+            let is_union = matches!(ty.kind(), TyKind::Adt(a, _) if a.is_union());
+            if !is_simd && !is_union && !matches!(cv, ConstValue::ZeroSized) {
+                if let Some(d) = tcx.try_destructure_mir_constant_for_user_output(*cv, ty) {
+                    j.put("ck", J::s("adt"));
+                    j.put("variant", num(d.variant.map(|v| v.as_usize()).unwrap_or(0)));
+                    let mut fs = Vec::new();
+                    for (fv, fty) in d.fields.iter() {
+                        let ft = self.tid(*fty);
+                        let mut fj = J::obj().set("k", J::s("const")).set("ty", ft);
+                        match fv {
+                            ConstValue::Scalar(mir::interpret::Scalar::Int(si)) => {
+                                let size = si.size();
+                                let bits = si.to_bits(size);
+                                fj.put("ck", J::s("int"));
+                                if matches!(fty.kind(), TyKind::Int(_)) {
+                                    fj.put("v", J::Int(size.sign_extend(bits) as i128));
+                                } else {
+                                    fj.put("v", J::UInt(bits));
+                                }
+                            }
+                            ConstValue::ZeroSized => fj.put("ck", J::s("zst")),
+                            _ => fj.put("ck", J::s("opaque")),
+                        }
+                        fs.push(fj);
+                    }
+                    j.put("fields", J::Arr(fs));
+                    return j;
+                }
+            }
+        }
+        match evaluated {
             Ok(ConstValue::ZeroSized) => j.put("ck", J::s("zst")),
             Ok(ConstValue::Scalar(mir::interpret::Scalar::Int(si))) => {
                 j.put("ck", J::s("int"));
